@@ -237,6 +237,28 @@ func c18tls(c *Ctx) {
 		})
 		r.Check("C18.verify", shortFn(fn), "tls-first-hop", fn.Pos(), ok && n > 0, why)
 	}
+	// cloneTLSConfig: every dial gets its own config value
+	{
+		ok, why := true, "cloneTLSConfig returns cfg.Clone() or a freshly allocated config (never a value shared between dials)"
+		n := 0
+		c.explore("C18.verify", clone, core.Opts{}, func(p *core.Path) {
+			if p.End != core.EndReturn || len(p.Results) != 1 {
+				return
+			}
+			n++
+			res := strip(p.Results[0])
+			switch {
+			case res.Kind == core.KAlloc:
+			case res.Kind == core.KCall:
+				if f, isF := res.Ref.(*ssa.Function); !isF || extName(f) != "(*crypto/tls.Config).Clone" {
+					ok, why = false, "cloneTLSConfig returns "+res.String()+", not a clone of its argument"
+				}
+			default:
+				ok, why = false, "cloneTLSConfig returns "+res.String()+" at "+c.P.Pos(p.Ret.Pos())+": a config shared between dials keeps the ServerName the first dial defaulted, so later hosts are verified against the first host's name"
+			}
+		})
+		r.Check("C18.verify", shortFn(clone), "fresh-config-per-dial", clone.Pos(), ok && n >= 2, why)
+	}
 	// doHandshake
 	{
 		ok, why := true, "nil only after HandshakeContext == nil and (InsecureSkipVerify or VerifyHostname(cfg.ServerName) == nil)"
@@ -423,6 +445,37 @@ func c18connect(c *Ctx) {
 				}
 				if !good {
 					ok, why = false, "Proxy-Authorization is not 'Basic ' + base64(user:password)"
+				} else {
+					// the encoded text is Username() + ":" + Password() of the proxy URL's userinfo (decoded forms; Userinfo.String()
+					// would send the percent-encoded form)
+					cred := strip(v.Args[1].Args[len(v.Args[1].Args)-1])
+					var parts []*core.Term
+					var flat func(t *core.Term)
+					flat = func(t *core.Term) {
+						if t.Kind == core.KBin && t.Op.String() == "+" {
+							flat(t.Args[0])
+							flat(t.Args[1])
+							return
+						}
+						parts = append(parts, t)
+					}
+					flat(cred)
+					isCallOf := func(t *core.Term, name string) bool {
+						if t.Kind == core.KExtract {
+							t = t.Args[0]
+						}
+						f, isF := t.Ref.(*ssa.Function)
+						return t.Kind == core.KCall && isF && extName(f) == name
+					}
+					sep, _ := func() (string, bool) {
+						if len(parts) == 3 {
+							return parts[1].StrVal()
+						}
+						return "", false
+					}()
+					if !(len(parts) == 3 && isCallOf(parts[0], "(*net/url.Userinfo).Username") && sep == ":" && isCallOf(parts[2], "(*net/url.Userinfo).Password")) {
+						ok, why = false, "the Basic credentials are not Username() + \":\" + Password() of the proxy URL (got "+cred.String()+"): another rendering of the userinfo, e.g. the percent-encoded Userinfo.String(), is not what the proxy expects"
+					}
 				}
 			}
 			return
